@@ -35,9 +35,14 @@ def assemble(template_path):
             continue
         indent, flags, rel, sel = m.group(1), (m.group(2) or "").split(","), m.group(3), [s.strip() for s in m.group(4).split("::")]
         contract = []
+        loopspecs = {}
         i += 1
-        while i < len(lines) and re.match(r"^\s*//@\|", lines[i]):
-            contract.append((re.sub(r"^\s*//@\|\s?", "", lines[i]), i + 1))
+        while i < len(lines) and re.match(r"^\s*//@(\||loop\s+\d+\|)", lines[i]):
+            lm = re.match(r"^\s*//@loop\s+(\d+)\|\s?(.*)$", lines[i])
+            if lm:
+                loopspecs.setdefault(int(lm.group(1)), []).append(lm.group(2))
+            else:
+                contract.append((re.sub(r"^\s*//@\|\s?", "", lines[i]), i + 1))
             i += 1
         path = os.path.join(REPO, rel)
         if not os.path.exists(path):
@@ -69,6 +74,9 @@ def assemble(template_path):
             for cl, tl in contract:
                 out.append(indent + "  " + cl)
                 linemap.append((len(out), ("contract", tl, sel[-1], cl.strip())))
+            if loopspecs:
+                body = splice_loops(body, loopspecs)
+                rec["changed"].append("ghost loop specifications (invariant/decreases) spliced before the body of loop(s) " + ", ".join(str(k) for k in sorted(loopspecs)) + "; executable text unchanged")
             body_first_line = src.count("\n", 0, it.body_start) + 1
             for k, bl in enumerate(body.split("\n")):
                 out.append(indent + bl if k == 0 else bl)
@@ -86,6 +94,32 @@ def assemble(template_path):
                 linemap.append((len(out), ("repo-item", rel, first + k, sel[-1])))
         manifest.append(rec)
     return "\n".join(out), dict(linemap), manifest
+
+
+def splice_loops(body, loopspecs):
+    """insert ghost loop specs before the `{` that opens the n-th loop (1-based, in textual order)"""
+    toks = list(extract.tokenize(body))
+    inserts = []
+    n = 0
+    for idx, (k, t, p) in enumerate(toks):
+        if k == "ident" and t in ("while", "for", "loop"):
+            n += 1
+            if n in loopspecs:
+                depth = 0
+                for k2, t2, p2 in toks[idx + 1:]:
+                    if k2 == "punct" and t2 in "([":
+                        depth += 1
+                    elif k2 == "punct" and t2 in ")]":
+                        depth -= 1
+                    elif k2 == "punct" and t2 == "{" and depth == 0:
+                        inserts.append((p2, "\n      " + "\n      ".join(loopspecs[n]) + "\n    "))
+                        break
+    for p, text in sorted(inserts, reverse=True):
+        body = body[:p] + text + body[p:]
+    missing = [k for k in loopspecs if k > n]
+    if missing:
+        raise extract.AnchorLost(f"loop {missing} not found in body")
+    return body
 
 
 if __name__ == "__main__":
